@@ -58,3 +58,16 @@ Theorem C15_compile_fail :
       Forall (fun q => assoc_opt isa (upper (pi_name q)) <> None) pre.
 Proof. exact C15_compile_fail_lemma. Qed.
 Print Assumptions C15_compile_fail.
+
+(* the messages of the rejections name their culprits (model/Errors.v) *)
+From PS Require Import Errors C11_msg.
+Theorem C15_isa_message :
+  forall e f, In f (isa_err_fields e) -> substrb f (isa_err_msg e) = true.
+Proof. exact C15_isa_message_lemma. Qed.
+Print Assumptions C15_isa_message.
+
+Theorem C15_compile_message :
+  forall name line, substrb name (comp_err_msg name line) = true /\
+                    substrb (nat_to_str line) (comp_err_msg name line) = true.
+Proof. exact C15_compile_message_lemma. Qed.
+Print Assumptions C15_compile_message.
